@@ -78,8 +78,11 @@ Str = 'STR' ;
 Bits = '{' ValueList '}' ;
 ValueList = Value (',' Value)* ;
 List = '[' ValueList ']' ('<' Type '>')? ;
-Dag = '(' DagOp DagArgList? ')' ;
-DagOp = DagOpValue (':' 'VAR')? ;
+Dag = '(' DagOpValue DagArgListNB? ')' | '(' DagOpValue ':' 'VAR' DagArgList? ')' ;
+DagArgListNB = DagArgNB (',' DagArg)* ;
+DagArgNB = ValueNB (':' 'VAR')? | 'VAR' ;
+ValueNB = SimpleValueNB Suffix* ('#' InnerValue)* ;
+SimpleValueNB = Int | Str | 'CODE' | 'true' | 'false' | '?' | Dag | 'ID' | ClassValue | BangOp | CondOp ;
 DagOpValue = DagOpSimple Suffix* ('#' InnerValue)* ;
 DagOpSimple = 'ID' | ClassValue | '?' | 'CASTOP' ('<' Type '>')? '(' ValueList ')' | 'GETDAGOP' ('<' Type '>')? '(' ValueList ')' ;
 DagArg = Value (':' 'VAR')? | 'VAR' ;
